@@ -18,7 +18,7 @@
 (* NoDrain, NoReport, DrainTwice, Relink.                                    *)
 (***************************************************************************)
 EXTENDS Integers, Sequences, FiniteSets, TLC, Json, CSV, IOUtils, TraceLib
-CONSTANTS MaxDrv, Orders, SayLens,
+CONSTANTS MaxDrv, MaxDrvRev, Orders, SayLens,
           MaxPrints, MaxPrints3,   \* log chunks per behaviour with <= 2 / >= 3 registered drivers
           PrintLens, Families, RingCap, Bug, Emit
 
@@ -39,11 +39,15 @@ OrdSeq == <<-128, -127, 0, 127>>
 FamSort(n) == [1..n -> {Rec(o, k, TRUE, TRUE, 0) : o \in Orders, k \in Kinds}]
 \* family "outcome": registration order = detection order, every kind / outcome / chattiness
 FamOutcome(n) == {q \in [1..n -> {Rec(0, "other", FALSE, TRUE, 0)} \cup {Rec(0, k, TRUE, i, y) : k \in Kinds, i \in BOOLEAN, y \in SayLens}] : TRUE}
+\* families "outcomeRev" / "pairsRev": the same driver sets registered in the opposite of their detection order
 \* family "pairs": consoles and terminals only, any of them failing
 FamPairs(n) == [1..n -> {Rec(0, k, TRUE, i, 0) : k \in {"tty", "cons"}, i \in BOOLEAN}]
 WithOrder(q) == [i \in 1..Len(q) |-> [q[i] EXCEPT !.order = OrdSeq[i]]]
+WithOrderRev(q) == [i \in 1..Len(q) |-> [q[i] EXCEPT !.order = OrdSeq[Len(q) + 1 - i]]]    \* registered last-to-first
 Regs(d) == (IF "sort" \in Families THEN UNION {FamSort(n) : n \in 0..MaxDrv} ELSE {})
            \cup (IF "outcome" \in Families THEN UNION {{WithOrder(q) : q \in FamOutcome(n)} : n \in 0..MaxDrv} ELSE {})
+           \cup (IF "outcomeRev" \in Families THEN UNION {{WithOrderRev(q) : q \in FamOutcome(n)} : n \in 2..MaxDrvRev} ELSE {})
+           \cup (IF "pairsRev" \in Families THEN UNION {{WithOrderRev(q) : q \in FamPairs(n)} : n \in 3..3} ELSE {})
            \cup (IF "pairs" \in Families THEN UNION {{WithOrder(q) : q \in FamPairs(n)} : n \in 3..(MaxDrv + 1)} ELSE {})
 
 Name(id) == <<10 + id>>
